@@ -21,6 +21,7 @@ C13_EndedOnce     == IsOp => EndedOnceP(GAfter, Ev.open)
 \* ... and never twice: no statement, COMMIT or ROLLBACK reaches a transaction that is already over (the server log says so)
 C13_NotEndedTwice == IsOp => ~Ev.twice /\ NotEndedTwiceP(Ev.log)
 C13_Multi         == IsOp => MultiP(G, O(Ev), Ev.res, Ev.log)
+C13_StopAcksByCommit == IsOp => StopAcksByCommitP(G, O(Ev), Ev.res, Ev.log)
 \* Ev.durable: the committed content of the server after the operation (what a fresh handle would read), per key
 C13_NoUnackedDurable == IsOp => NoUnackedDurableP(GAfter, Ev.durable)
 \* whether the known finding KF-pg-sticky-multi can affect this operation (an explicit transaction has ended before it)
